@@ -213,6 +213,25 @@ pub fn check<T: Acc>(p: &Pool<T>, s: &mut Sink) {
             s.count("states-with-nonzero-compensation", 1);
         }
     }
+    // an interval is a function of (register, confidence) alone: the same confidence asked of the
+    // registers of the pool one after the other (different data, hence different degrees of
+    // freedom, at one quantile) must give each register what it answers on its own, i.e. right
+    // after a query at another confidence
+    if p.regs.len() >= 2 {
+        use crate::models::QCONFS;
+        for (i, (k, l)) in QCONFS.into_iter().enumerate() {
+            let cross: Vec<String> = p.regs.iter().map(|(r, _)| r.ci_query(k, l)).collect();
+            let (ok, ol) = QCONFS[(i + 1) % QCONFS.len()];
+            for ((r, _), c) in p.regs.iter().zip(&cross) {
+                let _ = r.ci_query(ok, ol);
+                let alone = r.ci_query(k, l);
+                s.calls += 3;
+                if alone != *c {
+                    s.violation(format!("{}/query-result-depends-on-previous-calls", T::NAME), format!("{:?} at {k:?} {l}: {c} right after the same query on another register of the pool, {alone} on its own", r), case());
+                }
+            }
+        }
+    }
 }
 
 /// does the Debug rendering show a non-zero compensation term? (vacuity floor only)
